@@ -8,7 +8,17 @@ buffering wrapper, underlying stream with / without ``readinto``, consumer opera
 **all** answer sequences are executed (no deviation cap) and a monitor checks the property
 after every consumer operation.
 
-Part B: the full ``get_input_stream`` / ``Request.stream`` product over CONTENT_LENGTH,
+Oracle decision (maximum mode): RequestEntityTooLarge is demanded on every read *attempt made
+after the maximum has been reached* while the client sent more (never an EOF indication there),
+not on the read that reaches the maximum: ``read()`` / ``readall()`` returning exactly ``limit``
+bytes is accepted.  Reason: telling "exactly the maximum" from "longer" needs byte limit+1, which
+the same statement forbids to consume, and ``tests/test_wsgi.py::test_limited_stream`` pins
+``read() == first limit bytes`` followed by ``on_exhausted`` on the next read.  A consumer that
+reads until the stream reports its end therefore always learns about an over-long body; the
+consumers inside werkzeug that make a single ``read()`` are checked in part B
+(``Request.get_data``) and in C10 (``FormDataParser._parse_urlencoded``).
+
+Part B: the full ``get_input_stream`` / ``Request.stream`` / ``Request.get_data`` product over CONTENT_LENGTH,
 Transfer-Encoding, wsgi.input_terminated, max_content_length and safe_fallback against a
 table transcribed from the docstrings, again under every answer sequence.
 """
@@ -84,6 +94,9 @@ class Env:
             opts: list = [0, "ERR"]
         elif full == 0:
             opts = ["EOF", "ERR"]
+        elif asked < 0:
+            # read() without a size means "until EOF" on a blocking stream: no partial answer
+            opts = [full, "EOF", "ERR"]
         else:
             opts = [full, *range(full - 1, 0, -1), "EOF", "ERR"]
         a = opts[self.ch.choose(len(opts), (kind, asked, left))]
@@ -224,6 +237,7 @@ def run_case(cfg, ch: E4.Chooser):
     bare = wrap == "bare"
 
     def bad(sig, **kw):
+        kw["ncalls"] = len(env.calls)      # underlying calls made when the violation was observed
         viol.append((sig, kw))
 
     for idx, op in enumerate(ops):
@@ -358,7 +372,9 @@ def run_b(cfgb, ch: E4.Chooser):
     if term:
         environ["wsgi.input_terminated"] = True
     try:
-        if via == "request":
+        if via == "get_data":
+            s = None
+        elif via == "request":
             class R(Request):
                 max_content_length = mcl
             s = R(environ).stream
@@ -370,8 +386,23 @@ def run_b(cfgb, ch: E4.Chooser):
         return ("EXC-early:" + type(e).__name__, b"", env_s.pos, False), env_s
     got = b""
     status = "ok"
+    if via == "get_data":
+        # the whole-body accessor of the request object (one stream.read() inside)
+        class R2(Request):
+            max_content_length = mcl
+        try:
+            got = R2(environ).get_data()
+        except ClientDisconnected:
+            status = "CD"
+        except RequestEntityTooLarge:
+            status = "RETL"
+        except Hang:
+            status = "HANG"
+        except Exception as e:  # noqa: BLE001
+            status = "EXC:" + type(e).__name__
+        return (status, got, env_s.pos, env_s.err > 0), env_s
     try:
-        # read until the stream says EOF twice (what a form parser / get_data does)
+        # read until the stream reports EOF (what a form parser does)
         for _ in range(MAX_CALLS):
             d = s.read(4)
             if not d:
@@ -400,7 +431,7 @@ def check_b(cfgb, res, env_s):
     reasons = []
     for declared in declared_lengths(cl, te):
         exp = expected_b(declared, term, mcl, sfb, sent_eff)
-        r = _match_b(exp, status, got, consumed, injected, sent_eff, env_s)
+        r = _match_b(exp, status, got, consumed, injected, sent_eff, env_s, via == "get_data")
         if r is None:
             ok_any = True
             break
@@ -410,9 +441,10 @@ def check_b(cfgb, res, env_s):
     return out
 
 
-def _match_b(exp, status, got, consumed, injected, sent, env_s):
+def _match_b(exp, status, got, consumed, injected, sent, env_s, whole=False):
+    """whole: the body was fetched through Request.get_data() - one result or one exception."""
     if exp[0] == "RETL-early":
-        if status != "RETL-early":
+        if status != "RETL-early" and not (whole and status == "RETL"):
             return "declared-length-over-max-not-refused"
         if consumed or env_s.calls:
             return "input-read-although-declared-length-over-max"
@@ -441,7 +473,9 @@ def _match_b(exp, status, got, consumed, injected, sent, env_s):
         return None if (status == "ok" and got == sent) else "input-stream:raw-stream-truncated"
     if is_max:
         if len(sent) > limit:
-            return None if (status == "RETL" and got == sent[:limit]) else "input-stream:over-max-not-RETL"
+            if whole and status == "ok" and got == sent[:limit]:
+                return "get_data:longer-than-max-silently-truncated"
+            return None if (status == "RETL" and (whole or got == sent[:limit])) else "input-stream:over-max-not-RETL"
         if len(sent) == limit:
             # cannot be told from "longer" without over-reading: both outcomes accepted
             return None if (status in ("ok", "RETL") and got == sent) else "input-stream:max-exact-wrong"
@@ -538,8 +572,8 @@ def run_unit(unit, R, tier):
             for mcl in MCL_VALUES:
                 for sfb in (True, False):
                     for n in nb:
-                        for via in ("direct", "request"):
-                            if via == "request" and not sfb:
+                        for via in ("direct", "request", "get_data"):
+                            if via != "direct" and not sfb:
                                 continue
                             cfgb = (cl, te, term, mcl, sfb, n, via)
                             R.ev()
@@ -629,7 +663,7 @@ def _is_temp_buffer_short_read(rec):
             return False
         if "memoryview assignment" not in rec["detail"].get("text", ""):
             return False
-    calls = [tuple(c) for c in rec["underlying_calls"]]
+    calls = [tuple(c) for c in rec["underlying_calls"]][: rec["detail"].get("ncalls")]
     if not calls:
         return False
     kind, asked, ans = calls[-1]
@@ -640,8 +674,19 @@ def _is_temp_buffer_short_read(rec):
     return asked == limit - taken_before and 0 < ans < asked
 
 
+def _get_data_truncates(rec):
+    """Request.get_data() on a server-terminated stream longer than max_content_length: the single
+    stream.read() returns the first max_content_length bytes and no second read is attempted."""
+    if rec.get("kind") != "B" or rec["sig"] != "get_data:longer-than-max-silently-truncated":
+        return False
+    cl, te, term, mcl, sfb, n, via = rec["cfg"]
+    status, got, consumed, injected = rec["result"]
+    return via == "get_data" and term and mcl is not None and status == "ok" and len(got) == mcl == consumed
+
+
 FINDINGS = {
     "C09-readinto-temp-buffer-short-read": _is_temp_buffer_short_read,
+    "C09-get-data-truncates-at-max-content-length": _get_data_truncates,
 }
 
 LEVEL_TEXT = (
